@@ -1333,13 +1333,33 @@ func (sp *ServiceProvider) validateSignature(el *etree.Element) error {
 	//
 	// The best course of action is to just remove the KeyInfo so that dsig falls back to
 	// verifying against the public key provided in the metadata.
-	signatureNamesCertificate := el.FindElement("./Signature/KeyInfo/X509Data/X509Certificate") != nil
-	if !signatureNamesCertificate {
-		if sigEl := el.FindElement("./Signature"); sigEl != nil {
-			if keyInfo := sigEl.FindElement("KeyInfo"); keyInfo != nil {
-				sigEl.RemoveChild(keyInfo)
+	//
+	// Only the XML-DSig Signature found above is looked at: an extension element of another
+	// namespace that happens to be called Signature (or KeyInfo, X509Data, X509Certificate) is
+	// signed content, not key information, and must be left as it is.
+	const dsigNS = "http://www.w3.org/2000/09/xmldsig#"
+	keyInfos, err := findChildren(sigEl, dsigNS, "KeyInfo")
+	if err != nil {
+		return fmt.Errorf("cannot validate signature on %s: %v", el.Tag, err)
+	}
+	signatureNamesCertificate := false
+	for _, keyInfo := range keyInfos {
+		x509Datas, err := findChildren(keyInfo, dsigNS, "X509Data")
+		if err != nil {
+			return fmt.Errorf("cannot validate signature on %s: %v", el.Tag, err)
+		}
+		for _, x509Data := range x509Datas {
+			x509Certificates, err := findChildren(x509Data, dsigNS, "X509Certificate")
+			if err != nil {
+				return fmt.Errorf("cannot validate signature on %s: %v", el.Tag, err)
+			}
+			if len(x509Certificates) > 0 {
+				signatureNamesCertificate = true
 			}
 		}
+	}
+	if !signatureNamesCertificate && len(keyInfos) > 0 {
+		sigEl.RemoveChild(keyInfos[0])
 	}
 
 	ctx, err := etreeutils.NSBuildParentContext(el)
